@@ -86,6 +86,12 @@ Definition x_throw (e : Z) : machine Z Z :=
   Machine (tt, [CTimer 0%nat 0], Cont)
     (fun s _ i => match i with ITick _ => (s, [], Fail e) | _ => idle s end).
 
+(* throw.py: the inner subscribe(observer, scheduler=None) SHADOWS the factory's
+   scheduler argument: `scheduler or ImmediateScheduler.singleton()` only sees
+   the scheduler passed to subscribe(); throw(e, scheduler=S) subscribed
+   without one delivers on_error inside subscribe() *)
+Definition x_throw_immediate (e : Z) : machine Z Z := Machine (tt, [], Fail e) (fun s _ _ => idle s).
+
 Definition x_never : machine Z Z := Machine (tt, [], Cont) (fun s _ _ => idle s).
 
 (* ---- observable/generate.py -------------------------------------------------
